@@ -128,7 +128,7 @@ static const char *IMPLN[] = { "array", "linked_list", "dlinked_list" };
 /* one program step */
 static void step(void)
 {
-    int op = (int) vh_below(50);
+    int op = (int) vh_below(51);
     int i, j;
     switch (op) {
     case 0: case 1: { const char *w = word(); vh_op("str_new_from_ptr(%s)", vh_qs(w)); own(spif_str_new_from_ptr((spif_charptr_t) w), T_STR, 0); vh_count("create", 1); break; }
@@ -290,6 +290,16 @@ static void step(void)
                if (f & 2) { spif_mbuff_t r = spif_mbuff_new_from_fd(fd); if (r) own(r, T_MBUFF, 0); }
                else { spif_str_t r = spif_str_new_from_fd(fd); if (r) own(r, T_STR, 0); }
                close(fd); vh_count("constructions_from_undeliverable_descriptor", 1); break; }
+    /* ---- any component of a URL replaced through its setter by a new string, an empty string or nothing at all: states the parser never
+     * produces (a password without a user, a port without a host); the URL owns what it was given and done()/del release all of it */
+    case 50: if ((i = pick_kind(T_URL)) >= 0) { int c = (int) vh_below(7), how = (int) vh_below(3); spif_url_t u = pool[i].p;
+                 static const char *CN[] = { "proto", "user", "passwd", "host", "port", "path", "query" };
+                 spif_str_t v = how == 0 ? spif_str_new_from_ptr((spif_charptr_t) word()) : how == 1 ? spif_str_new_from_ptr((spif_charptr_t) "") : (spif_str_t) NULL;
+                 vh_op("url_set_%s(#%d, %s)", CN[c], i, how == 0 ? "a word" : how == 1 ? "\"\"" : "NULL");
+                 switch (c) { case 0: spif_url_set_proto(u, v); break; case 1: spif_url_set_user(u, v); break; case 2: spif_url_set_passwd(u, v); break; case 3: spif_url_set_host(u, v); break;
+                              case 4: spif_url_set_port(u, v); break; case 5: spif_url_set_path(u, v); break; default: spif_url_set_query(u, v); break; }
+                 if (vh_coin(40)) spif_url_unparse(u);
+                 vh_count("url_component_set", 1); } break;
     case 38: case 39: if (npool > 0) { i = (int) vh_below((uint64_t) npool); vh_op("early delete of #%d (%s)", i, TN[pool[i].kind]); destroy(i); vh_count("early_delete", 1); } break;
     }
 }
